@@ -25,7 +25,7 @@ def main(argv):
     mod = importlib.import_module(f"vq.props.{pid.lower()}")
     if hasattr(mod, "setup"):
         mod.setup()
-    deadline = float(getattr(mod, "CASE_TIMEOUT", {}).get(tier, 60))
+    deadline = float(getattr(mod, "CASE_TIMEOUT", {}).get(tier, 60)) * float(os.environ.get("VQ_TIMEOUT_SCALE", "1"))
     signal.signal(signal.SIGALRM, _alarm)
     n = 0
     with open(out, "w") as fo:
@@ -44,6 +44,7 @@ def main(argv):
             finally:
                 signal.setitimer(signal.ITIMER_REAL, 0)
             res["i"] = idx
+            res["hs"] = os.environ.get("PYTHONHASHSEED")
             res["t"] = round(time.time() - t0, 4)
             if res.get("fails") or res.get("status") in ("error", "timeout") or n % 97 == 0:
                 res["case"] = case
